@@ -438,10 +438,19 @@ func c11Scenario(id int, kind string, delay int64, param int, dir string) (c c11
 		server.Close()
 		// the anchor mechanism: Session.Close closes every stream's notify channel BEFORE it returns
 		// (the deferred cleanup on the dispatcher would release the reader too, but up to an epoll period later)
+		// The guarantee belongs to the Close call that WON the shutdown CAS (another caller - e.g. exitErr on
+		// the dispatcher - may be in the middle of it: then this call returns at once).  The winner closes
+		// shutdownCh AFTER its notify loop, so: shutdownCh closed => closeNotifyCh of every stream that was
+		// in the table is closed.  sst was accepted long before.
 		select {
-		case <-sst.closeNotifyCh:
-		default:
-			c.fail("session-close: Session.Close returned but the stream's closeNotifyCh is not closed yet")
+		case <-server.CloseChan():
+			select {
+			case <-sst.closeNotifyCh:
+			default:
+				c.fail("session-close: the session's shutdownCh is closed but the stream's closeNotifyCh is not closed yet")
+			}
+		case <-time.After(c11Bound):
+			c.fail("session-close: Session.Close returned but shutdownCh is not closed within the bound")
 		}
 		c.record(c11Await(ch, c11Bound), t, 2, 3)
 	case "peer-session-close": // the peer session is closed
@@ -613,6 +622,119 @@ func c11FlushFull(id int, qcap int, withDeadlineMs int, dir string) (c c11Case) 
 			}
 		}
 	}
+	return
+}
+
+// The PEER closes a stream while the io queue is full; a reader is parked on that stream here; then the
+// consumer catches up.  The close notification must still arrive (the closing side falls through from the
+// full queue to the socket path): the reader returns ErrEndOfStream within the bound after the catch-up.
+type c11StallCb struct {
+	n       int32
+	streams chan *Stream
+	stalled chan struct{}
+	release chan struct{}
+}
+
+func (c *c11StallCb) OnNewStream(s *Stream) {
+	c.streams <- s
+	if atomic.AddInt32(&c.n, 1) == 2 {
+		close(c.stalled)
+		<-c.release
+	}
+}
+func (c *c11StallCb) OnShutdown(reason string) {}
+
+func c11PeerCloseQueueFull(id int, qcap int, delay int64, dir string) (c c11Case) {
+	c = c11Case{ID: id, Kind: "peer-close-queue-full", Param: qcap, Delay: delay}
+	cb := &c11StallCb{streams: make(chan *Stream, 16), stalled: make(chan struct{}), release: make(chan struct{})}
+	released := false
+	rel := func() {
+		if !released {
+			released = true
+			close(cb.release)
+		}
+	}
+	client, server, err := c11Pair(dir, func(cf *Config) { cf.QueueCap = uint32(qcap) }, func(cf *Config) { cf.listenCallback = cb })
+	if err != nil {
+		c.Skip = err.Error()
+		return
+	}
+	defer func() {
+		rel()
+		time.Sleep(20 * time.Millisecond)
+		client.Close()
+		server.Close()
+	}()
+	// stream A: one byte; the server-side reader takes it and parks in its next read
+	a, err := client.OpenStream()
+	if err == nil {
+		_, err = a.Write([]byte{'a'})
+	}
+	if err != nil {
+		c.Skip = "stream A: " + err.Error()
+		return
+	}
+	var sa *Stream
+	select {
+	case sa = <-cb.streams:
+	case <-time.After(c11Bound):
+		c.Skip = "OnNewStream(A) was not called"
+		return
+	}
+	buf := make([]byte, 8)
+	sa.SetReadDeadline(time.Now().Add(c11Bound))
+	if n, rerr := sa.Read(buf); rerr != nil || n != 1 {
+		c.Skip = "first read on A failed"
+		return
+	}
+	sa.SetReadDeadline(time.Time{})
+	ch := c11Call(func() (int, error) { return sa.Read(buf) })
+	time.Sleep(20 * time.Millisecond)
+	// stream B stalls the consumer inside OnNewStream
+	b, err := client.OpenStream()
+	if err == nil {
+		_, err = b.Write([]byte{'b'})
+	}
+	if err != nil {
+		c.Skip = "stream B: " + err.Error()
+		return
+	}
+	select {
+	case <-cb.stalled:
+	case <-time.After(c11Bound):
+		c.Skip = "OnNewStream(B) was not called"
+		return
+	}
+	// fill the io queue
+	for i := 0; i < qcap+2 && !client.sendQueue().isFull(); i++ {
+		if _, err = b.Write([]byte{'c'}); err != nil {
+			break
+		}
+	}
+	if !client.sendQueue().isFull() {
+		c.Skip = "could not fill the queue"
+		return
+	}
+	// the peer closes A while the queue is full
+	cerr := a.Close()
+	if !client.sendQueue().isFull() {
+		c.Skip = "the queue drained before the close"
+		return
+	}
+	if cerr != nil {
+		c.fail("peer-close-queue-full: Stream.Close failed with class %d while the queue was full (its close notification is lost: the stream is closed locally and cannot be closed again)", c11Class(cerr))
+	}
+	c11Sleep(delay)
+	select {
+	case r := <-ch:
+		c.fail("peer-close-queue-full: the read returned (class %d) although the consumer is still stalled", c11Class(r.err))
+		return
+	default:
+	}
+	// the consumer catches up
+	t := time.Now()
+	rel()
+	c.record(c11Await(ch, c11Bound), t, 2)
 	return
 }
 
@@ -974,6 +1096,11 @@ func TestVerif_C11(t *testing.T) {
 	}
 	emit(c11FlushFull(id, 4, 35, dir))
 	id++
+	for _, q := range []int{1, 4, 8} {
+		d := delays[r.intn(len(delays))]
+		emit(c11PeerCloseQueueFull(id, q, d, dir))
+		id++
+	}
 	time.Sleep(300 * time.Millisecond)
 	emit(c11SendChFull(id, dir))
 	id++
